@@ -41,11 +41,8 @@ var (
 		Pid:     0,
 	}
 
-	dropCapData = unix.CapUserData{
-		Effective:   0,
-		Permitted:   0,
-		Inheritable: 0,
-	}
+	// version 3 of the interface takes two data structs (the low and the high 32 capabilities)
+	dropCapData = [2]unix.CapUserData{}
 
 	// 1ms
 	etxtbsyRetryInterval = unix.Timespec{
